@@ -1106,6 +1106,13 @@ fn run_stats_truth(ex: &mut Executor, spec: &ExecSpec, analysed: bool, label: &s
         out.fail = Some(f);
         return out;
     }
+    if oracle::log_messages(&r.stderr).iter().any(|m| m.level == "ERROR" && m.text.contains("nknown system ID")) {
+        // the first analysed packet (under a filter: the first matching one) carries a system ID the tool does
+        // not know: a documented fatal of input detection, not a statistics matter
+        out.nontrivial = false;
+        out.labels.push("excluded:unknown-system-id".into());
+        return out;
+    }
     if oracle::has_fatal(&r.stderr) {
         out.fail = Some(Fail::new(
             "statistics",
